@@ -13,14 +13,19 @@ Staging.  `only`, `exclude`, `reduce_by_python_constraint` rebuild their result 
 every fuel and recursion stack).  That development is relative to a leaf specification
 `LeafSpec ev G` (marker equality and leaf merging respect the leaf truth `ev` on leaves satisfying the
 invariant `G`; the concrete instance for `leafEval E` is C06/C07's subject) — the theorems below take the
-same `S : LeafSpec ev G` and `M.Good G m`, so they compose with C07 without further hypotheses.  What
-remains explicit: `ReduceCtx` (C11's `pyConstraint_exact` / `createNested_exact` through `parse_marker`, C12's `allows_all` /
-`allows_any` soundness at the interpreter) for `reduce_exact`.  The statements without hypotheses are kept as
+same `S : LeafSpec ev G` and `M.Good G m`, so they compose with C07 without further hypotheses.  The last section
+(`only_mentions`, `reduce_exact_validate`) instantiates everything on `FullLeaf E` — plain string variables, `extra`,
+`python_version op "a.b"`, `python_full_version op "a.b.c"` with comparison operators — where the leaf
+specification, the python_version / python_full_version pairing included (`pairSound_py`), C11's exactness,
+`create_nested_marker` through `parse_marker` and C12's two answers are all proved: no hypothesis is left there
+beyond the description of the environment and of the project's range.  The `…_partial` theorems keep the general
+form (any invariant `G` with a leaf specification `S`); the statements without domain are kept as
 `C17_…_full_statement`.
 -/
 import PoetryVerif.Proofs.MarkerProjReduce
 import PoetryVerif.Proofs.PyConvReduce
 import PoetryVerif.Proofs.MarkerAlgSoundOps
+import PoetryVerif.Proofs.PyConvFullReduce
 
 set_option linter.unusedSimpArgs false
 set_option linter.unusedVariables false
@@ -185,5 +190,35 @@ def C17_reduce_exact_full_statement : Prop :=
     E.get? "python_version" = some (Version.relText [X, Y]) →
     pc.allows (pyOf X Y Z) = .ok true → M.reduce pc m = .ok r →
     M.Evaluable E m → M.Evaluable E r → M.validate E r = M.validate E m
+
+/-! ## against poetry's own `validate`, no leaf-level hypothesis
+
+On `FullLeaf E` (plain string variables, `extra`, `python_version op "a.b"`, `python_full_version op "a.b.c"` with
+comparison operators; C07's leaf specification holds there outright, the python_version / python_full_version
+pairing included: `pairSound_py`), for an environment of interpreter `X.Y.Z` with a set of active extras. -/
+
+/-- **`only` mentions only the requested variables.** -/
+theorem only_mentions {E : Env} {ex : List String} (hX : E.extras = some ex) {X Y Z : Nat} (hE : EnvPy E X Y Z)
+    (names : List String) (m r : M) (hg : M.Good (FullLeaf E) m) (h : m.only names = .ok r) :
+    ∀ n ∈ M.vars r, n ∈ names :=
+  only_mentions_full hX hE names m r hg h
+
+/-- **reduction by a Python range is exact**: for a range of C11's domain with bounds of two or three components
+that is a well-formed constraint and admits the interpreter, the reduced marker stays in the domain and validates
+to the same value as the original. -/
+theorem reduce_exact_validate {E : Env} {ex : List String} (hX : E.extras = some ex) {X Y Z : Nat}
+    (hE : EnvPy E X Y Z) (pc : VC) (hd : PyDomVC pc = true) (hp2 : PyPrec2 pc) (hpcok : PyVCok pc)
+    (hpc : pc.allowsPlain (pyV X Y Z) = true) (m r : M) (hg : M.Good (FullLeaf E) m)
+    (h : M.reduce pc m = .ok r) :
+    M.Good (FullLeaf E) r ∧ M.validate E r = M.validate E m :=
+  reduce_exact_validate_full hX hE pc hd hp2 hpcok hpc m r hg h
+
+/-- the hypotheses on the range are satisfiable: `>=3.8,<3.11` -/
+example : PyPrec2 (.single (.rng ⟨some (finalV [3, 8]), some (finalV [3, 11]), true, false⟩)) := by
+  intro rc hrc e he
+  simp only [VC.flatten, List.mem_cons, List.mem_nil_iff, or_false] at hrc
+  subst hrc
+  simp [RC.bounds, RC.view, VRange.bounds, RC.min, RC.max] at he
+  rcases he with rfl | rfl <;> simp [finalV]
 
 end Poetry.C17
